@@ -11,6 +11,8 @@ DEMO=$(ls $OUT/m${K}_demo_test.go 2>/dev/null)
 PKG=${DEMO_PKG:-fhirpath}
 if [ -n "$DEMO" ]; then
   if [ -z "$DEMO_PKG" ] && grep -q "^package system" "$DEMO"; then PKG=fhirpath/system; fi
+  D=$(head -3 "$DEMO" | grep -o "^// dir: *[A-Za-z0-9_/.-]*" | sed 's#// dir: *##' | head -1)
+  if [ -z "$DEMO_PKG" ] && [ -n "$D" ]; then PKG=$D; fi
   cp "$DEMO" "$WT/$PKG/zz_m${K}_demo_test.go"
   TESTS=$(grep -o "^func Test[A-Za-z0-9_]*" "$DEMO" | sed 's/func //' | paste -sd'|')
   (cd $WT && go test -vet=off -count=1 -run "^($TESTS)\$" ./$PKG/ >/tmp/mut_demo_head.log 2>&1) && echo "demo on HEAD: PASS" || echo "demo on HEAD: FAIL (unexpected)"
